@@ -451,10 +451,16 @@ def run_header(ctx) -> RuleResult:
                     while isinstance(cur, ast.BinOp) and isinstance(cur.op, ast.Add):
                         cur = cur.left
                     return cur if isinstance(cur, ast.Name) else None
-                if isinstance(value, ast.Call) and isinstance(value.func, ast.Attribute) and value.func.attr == "join" and value.args \
-                        and isinstance(value.args[0], (ast.List, ast.Tuple)) and value.args[0].elts:
-                    elt = value.args[0].elts[0]
-                    return elt if isinstance(elt, ast.Name) else None
+                if isinstance(value, ast.Call) and isinstance(value.func, ast.Attribute) and value.func.attr == "join" and value.args:
+                    seq = value.args[0]
+                    if isinstance(seq, (ast.GeneratorExp, ast.ListComp)) and len(seq.generators) == 1 \
+                            and isinstance(seq.elt, ast.Name) and isinstance(seq.generators[0].target, ast.Name) \
+                            and seq.elt.id == seq.generators[0].target.id:
+                        seq = seq.generators[0].iter  # sep.join(p for p in (a, b) if p): order of the literal
+                    if isinstance(seq, (ast.List, ast.Tuple)) and seq.elts:
+                        elt = seq.elts[0]
+                        return elt if isinstance(elt, ast.Name) else None
+                    return None
                 if isinstance(value, ast.JoinedStr) and value.values and isinstance(value.values[0], ast.FormattedValue):
                     elt = value.values[0].value
                     return elt if isinstance(elt, ast.Name) else None
